@@ -81,6 +81,7 @@ Rej(can) == ~can /\ UNCHANGED svars /\ cb' = <<>>
 Conf ==
     LET e == ev' IN
     CASE e.name = "reset" -> TRUE
+      [] e.name = "restore" -> TRUE
       [] e.name = "Obs" -> UNCHANGED svars
       [] e.name = "Genesis" -> UNCHANGED svars
       [] e.name = "PrepZeroHeight" -> e.ok /\ PrepZeroHeight
@@ -275,7 +276,7 @@ TraceInit ==
     /\ vol = S_vol(st) /\ earned = S_ef(st.earned) /\ oearned = S_ef(st.oearned)
     /\ cb = <<>>
     /\ ev = Trace[1].ev
-    /\ hist = HistInit
+    /\ hist = HistUnknown(S_ctx(st))
     /\ bad = {} /\ conf = TRUE /\ stopped = FALSE
 
 TraceNext ==
@@ -292,8 +293,9 @@ TraceNext ==
        /\ vol' = S_vol(st) /\ earned' = S_ef(st.earned) /\ oearned' = S_ef(st.oearned)
     /\ cb' = [i \in DOMAIN Trace[l + 1].cb |-> CbOf(Trace[l + 1].cb[i])]
     /\ ev' = Trace[l + 1].ev
-    /\ hist' = IF ev'.name = "reset" THEN HistInit ELSE HistNext
-    /\ stopped' = IF ev'.name = "reset" THEN FALSE ELSE (stopped \/ ev'.name = "PrepZeroHeight")
+    /\ hist' = IF ev'.name = "reset" THEN HistInit
+               ELSE IF ev'.name = "restore" THEN HistUnknown(ctx') ELSE HistNext
+    /\ stopped' = IF ev'.name \in {"reset", "restore"} THEN FALSE ELSE (stopped \/ ev'.name = "PrepZeroHeight")
     /\ bad' = {p \in Check : ~Holds(p)}
     /\ conf' = Conf
     /\ (bad' # {} => PrintT(<<"VIOL", l + 1, bad'>>))
